@@ -523,6 +523,8 @@ impl<'a> Engine<'a> {
     }
 
     fn open(&mut self) -> Option<DB> {
+        let before = simos::log_len();
+        let existed = simos::bypass(|| std::path::Path::new(&self.cfg.path).exists());
         simos::mark(Marker::OpenCall);
         let np = if self.opened_once { self.cfg.num_pages * self.cfg.reopen_np_factor.max(1) } else { self.cfg.num_pages };
         self.opened_once = true;
@@ -532,6 +534,13 @@ impl<'a> Engine<'a> {
         match r {
             Ok(Ok(db)) => {
                 simos::mark(Marker::OpenReturn { ok: true });
+                if existed && self.cfg.c06 {
+                    // opening an existing database must not change the file
+                    let m = simos::mutations_since(before);
+                    if m > 0 {
+                        self.fail("ro-write", "open", format!("opening an existing file (asking for {} initial pages) issued {} write/extend/sync call(s)", np, m), false);
+                    }
+                }
                 Some(db)
             }
             Ok(Err(e)) => {
@@ -549,18 +558,12 @@ impl<'a> Engine<'a> {
 
     pub fn run(mut self) -> Outcome {
         loop {
-            let before = simos::log_len();
-            let existed = simos::bypass(|| std::path::Path::new(&self.cfg.path).exists());
             let db = match self.open() {
                 Some(db) => db,
                 None => break,
             };
-            if existed && self.cfg.c06 {
-                // opening an existing database must not change the file
-                let m = simos::mutations_since(before);
-                if m > 0 {
-                    self.fail("ro-write", "open", format!("opening an existing file issued {} write/extend/sync call(s)", m), false);
-                }
+            if self.stop {
+                break;
             }
             let mut readers: Readers = Vec::new();
             let reopen = self.session(&db, &mut readers);
